@@ -363,8 +363,22 @@ func (w *WSeq) do(q *wreq) *wres {
 		for i, c := range lnc {
 			lnx[i] = L(A(c.Kind), I(c.Hash), N(c.Msat), N(c.MaxFee), A(c.Answer))
 		}
-		tr := make([]Sx, len(res.Trace))
-		for i, t := range res.Trace {
+		trace := res.Trace
+		if q.Kind == "checkstate" {
+			// re-polls of two or more melt quotes happen in Go's map iteration order: compare as a multiset
+			n := 0
+			for _, t := range trace {
+				if t == "db.GetMeltQuote" {
+					n++
+				}
+			}
+			if n >= 2 {
+				trace = append([]string(nil), trace...)
+				sort.Strings(trace)
+			}
+		}
+		tr := make([]Sx, len(trace))
+		for i, t := range trace {
 			tr[i] = A(t)
 		}
 		impl := Render(L(I(res.Status), S(res.Canon), Ls(tr), Ls(lnx), I(res.CacheLen)))
